@@ -178,5 +178,6 @@ OBLIGATIONS = _qobs() + [
          assumptions=[]),
 ]
 
-from harness.corace import OB_CCI, OB_SEM, count_callback, sliding_window_waiters  # noqa: E402
+from harness.corace import OB_CCI, OB_SEM, OB_SEMP, count_callback, sliding_window_preempt, sliding_window_waiters  # noqa: E402
 OBLIGATIONS += [dict(OB_SEM, id='C04.5', cases_thorough=[(1, 2), (1, 3), (2, 3), (2, 4)]), dict(OB_CCI, id='C04.6')]
+OBLIGATIONS += [dict(OB_SEMP, id='C04.5p')]
